@@ -58,6 +58,9 @@ def run (op : String) (a : Json) : Option (Except String Json) :=
       | "module" => pure <| resJson (moduleName e u moduleConv s)
       | "package" => pure <| resJson (packageName e u packageConv s)
       | k => .error s!"bad kind {k}"
+  | "names.filters_init" => some do
+      let ps ← getStrs a "prefixes"
+      pure <| if filtersInit ps then ok (jBool true) else err "CodegenError"
   | "names.clean_uri" => some do
       let s ← getStr a "s"
       pure <| ok (jStr (cleanUri s))
